@@ -138,7 +138,8 @@ class Ctx:
         os.makedirs(os.path.join(VERIF, "evidence"), exist_ok=True)
         with open(os.path.join(VERIF, "evidence", f"{self.prop}.json"), "w") as f:
             json.dump(ev, f, indent=1, default=str)
-        shutil.rmtree(self.scratch, ignore_errors=True)
+        if not os.environ.get("VERIF_KEEP_SCRATCH"):
+            shutil.rmtree(self.scratch, ignore_errors=True)
         return 1 if self.violations else 0
 
 
